@@ -41,8 +41,8 @@ from vlib.runner import Result, h64
 PROPERTY = 'C16'
 LEVEL = 'exploration'
 RULE = ('Exhaustive: every EFloat format (all es, nbits <= 8 quick / 11 thorough, inf on/off, 4 NaN kinds, eoffset in '
-        '{-3,0,2}) and IEEE (es,nbits) format the constructor accepts, FixedFormat signed/unsigned and SMFixedFormat '
-        'nbits <= 8 (10 thorough) x scale {-3,0,2}, ExpFormat nbits <= 6 (8 thorough) x eoffset {-3,0,2}; complete small '
+        '{-3..2}) and IEEE (es,nbits) format the constructor accepts, FixedFormat signed/unsigned and SMFixedFormat '
+        'nbits <= 8 (10 thorough) x scale {-3,0,2}, ExpFormat nbits <= 6 (8 thorough) x eoffset {-3..2}; complete small '
         'MPB float/fixed formats and ordinal windows of MPS float / MP fixed formats; each at Format and Context level. '
         'One evaluation = one (format, level, item): item = a bit pattern (decode vs reference, encode(decode(b)) = b up '
         'to NaN payload), a member value in every Float spelling (representable, encode lands on a pattern of that value, '
@@ -1208,6 +1208,9 @@ def run_native_item(res: Result, width, level, b, fut_cache={}):
 # ---------------------------------------------------------------------------
 # configuration space and shards
 
+EOFFSETS = (-3, -2, -1, 0, 1, 2)
+
+
 def format_space(tier):
     """List of (spec, weight)."""
     T = tier == 'thorough'
@@ -1217,7 +1220,7 @@ def format_space(tier):
         for es in range(0, nbits + 1):
             for nk in (0, 1, 2, 3):
                 for inf in (False, True):
-                    for eo in (-3, 0, 2):
+                    for eo in EOFFSETS:      # innermost: formats of one shape meet in one worker process
                         out.append((('efloat', (es, nbits, inf, nk, eo)), 1 << nbits))
             out.append((('ieee', (es, nbits)), 1 << nbits))
     FB = 10 if T else 8
@@ -1227,7 +1230,7 @@ def format_space(tier):
                 out.append((('fixed', (signed, scale, nbits)), 1 << nbits))
             out.append((('smfixed', (scale, nbits)), 1 << nbits))
     for nbits in range(1, (8 if T else 6) + 1):
-        for eo in (-3, 0, 2):
+        for eo in EOFFSETS:
             out.append((('exp', (nbits, eo)), 1 << nbits))
     flags2 = ((True, True), (False, False), (True, False), (False, True))
     for p in range(1, (7 if T else 5)):
